@@ -73,6 +73,9 @@ FIXED = {
     "Z/S/T.pow returned an unqueued copy": ("C41", "qp.pow(Z(0), 3, lazy=False) inside a recording context removed the gate (also S**5, T**9)"),
     "adjoint_jacobian/jvp/vjp lost the parameter index": ("C34", "diff_method='adjoint': RX(x,0); Rot(0.1,0.2,0.3,0) (constant multi-parameter gate after a trainable one) gave gradient 0.0 instead of -0.487"),
     "sparse expectation values dropped a batch axis of size one": ("C28", "expval(LinearCombination / SparseHamiltonian) with a broadcast parameter of batch size one returned shape () instead of (1,) on default.qubit and default.mixed (math.squeeze in csr_dot_products)"),
+    "is_commuting ignored the control wires": ("C08", "is_commuting(adjoint(ctrl(SX(0), control=['x', 3])), X('x')) returned True (control wires of a wrapped controlled operator treated as targets)"),
+    "split_non_commuting took the grouping shortcut": ("C20", "split_non_commuting(qwc/default) raised ValueError for expval of a Sum whose non-Pauli term has coefficient 0: 0.5*(0.66*I(3) + 0.0*H(1)) + I(1)"),
+    "diagonalize_measurements silently rotated wires": ("C20", "diagonalize_measurements: expval(0.59*Y(0) - 0.37*Hermitian(A, 0)) and [expval(X(0)), var(Projector([0], 0))] were returned with the Hermitian/Projector untouched on a rotated wire (wrong values, no error)"),
     "clifford_t_decomposition maps PhaseShift(3 pi/4)": ("C15", "clifford_t_decomposition mapped PhaseShift(3pi/4) / PhaseShift(5pi/4) to a bare T-adjoint / T (error 2.0)"),
     "IntegerComparator(geq=False) matrix": ("C10", "IntegerComparator(value > 2**n, geq=False).matrix() raised ValueError"),
 }
